@@ -8,6 +8,9 @@ package main
 
 import (
 	"fmt"
+	"time"
+
+	"github.com/cockroachdb/apd/v3"
 	"os"
 	"path/filepath"
 	"strings"
@@ -30,12 +33,17 @@ type valT struct {
 	Null bool   `json:"null,omitempty"`
 	Int  *int64 `json:"int,omitempty"`
 	Str  *string `json:"str,omitempty"`
+	Dec  *int64  `json:"dec_cents,omitempty"` // DECIMAL(12,2) value in hundredths
+	Date []int   `json:"date,omitempty"`      // y m d  or  y m d hh mi ss
+	Blob *string `json:"blob,omitempty"`
 }
 
 type caseT struct {
 	Kind string   `json:"kind"` // "roundtrip" | "readonly"
 	Opt  optT     `json:"opt"`
-	Tys  []string `json:"tys"` // "int" | "text"
+	Cols []int    `json:"cols,omitempty"`   // roundtripx: exported / loaded column list (indices), nil = all
+	Ign  int      `json:"ignore,omitempty"` // roundtripx: IGNORE n LINES
+	Tys  []string `json:"tys"` // "int" | "text" | "dec" | "date" | "datetime" | "blob"
 	Rows [][]valT `json:"rows,omitempty"`
 	File *string  `json:"file,omitempty"` // readonly: the bytes to load
 	N    int      `json:"ncols,omitempty"`
@@ -183,6 +191,14 @@ type world struct {
 func sigOf(tys []string) string {
 	var sb strings.Builder
 	for _, t := range tys {
+		if t == "datetime" {
+			sb.WriteByte('m')
+			continue
+		}
+		if t == "dec" {
+			sb.WriteByte('c')
+			continue
+		}
 		sb.WriteByte(t[0])
 	}
 	return sb.String()
@@ -196,8 +212,17 @@ func (w *world) ensure(name string, tys []string) {
 	cols := make([]string, len(tys))
 	for i, t := range tys {
 		ty := "TEXT"
-		if t == "int" {
+		switch t {
+		case "int":
 			ty = "BIGINT"
+		case "dec":
+			ty = "DECIMAL(12,2)"
+		case "date":
+			ty = "DATE"
+		case "datetime":
+			ty = "DATETIME"
+		case "blob":
+			ty = "BLOB"
 		}
 		cols[i] = fmt.Sprintf("c%d %s", i, ty)
 	}
@@ -319,6 +344,10 @@ func (w *world) run(c *lib.Ctx, cs caseT) {
 	defer os.Remove(file)
 	clause := cs.Opt.clause()
 
+	if cs.Kind == "roundtripx" {
+		w.runX(c, cs)
+		return
+	}
 	if cs.Kind == "readonly" {
 		n := cs.N
 		dst := fmt.Sprintf("x_%d", n)
@@ -425,6 +454,297 @@ func (w *world) run(c *lib.Ctx, cs caseT) {
 		what += "fails: " + ld.Err.Error()
 	}
 	c.PredFail(id, sg, what, cs)
+}
+
+// ---------- extended round trip: other column types, IGNORE n LINES, column lists ----------
+
+func hexLit(b string) string { return fmt.Sprintf("X'%x'", b) }
+
+func litX(v valT) string {
+	switch {
+	case v.Int != nil:
+		return fmt.Sprintf("%d", *v.Int)
+	case v.Str != nil:
+		return sqlQuote(*v.Str)
+	case v.Dec != nil:
+		c := *v.Dec
+		sign := ""
+		if c < 0 {
+			sign, c = "-", -c
+		}
+		return fmt.Sprintf("%s%d.%02d", sign, c/100, c%100)
+	case len(v.Date) == 3:
+		return fmt.Sprintf("'%04d-%02d-%02d'", v.Date[0], v.Date[1], v.Date[2])
+	case len(v.Date) == 6:
+		return fmt.Sprintf("'%04d-%02d-%02d %02d:%02d:%02d'", v.Date[0], v.Date[1], v.Date[2], v.Date[3], v.Date[4], v.Date[5])
+	case v.Blob != nil:
+		return hexLit(*v.Blob)
+	}
+	return "NULL"
+}
+
+// coqX prints an engine value as an xval; ty is the column type name of the driver.
+func coqX(v interface{}, ty string) string {
+	switch x := v.(type) {
+	case nil:
+		return "XNull"
+	case int64:
+		return "(XInt " + lib.CoqZ(x) + ")"
+	case string:
+		return "(XStr " + lib.CoqStr(x) + ")"
+	case []byte:
+		return "(XBlob " + lib.CoqBytes(x) + ")"
+	case *apd.Decimal:
+		co := x.Coeff.String()
+		if x.Negative && co != "0" {
+			co = "-" + co
+		}
+		if x.Exponent > 0 {
+			return fmt.Sprintf("(XStr [999998] (* positive exponent %d *))", x.Exponent)
+		}
+		return fmt.Sprintf("(XDec %s %d%%nat)", lib.CoqZStr(co), -x.Exponent)
+	case time.Time:
+		if ty == "date" {
+			return fmt.Sprintf("(XDate %d %d %d)", x.Year(), int(x.Month()), x.Day())
+		}
+		return fmt.Sprintf("(XDateTime %d %d %d %d %d %d)", x.Year(), int(x.Month()), x.Day(), x.Hour(), x.Minute(), x.Second())
+	}
+	return fmt.Sprintf("(XStr [999999] (* %T *))", v)
+}
+
+func coqTyX(t string) string {
+	switch t {
+	case "int":
+		return "TInt"
+	case "text":
+		return "TText"
+	case "blob":
+		return "(TOther true)"
+	}
+	return "(TOther false)"
+}
+
+func (w *world) runX(c *lib.Ctx, cs caseT) {
+	e := cs.Opt.eff()
+	w.seq++
+	file := filepath.Join(w.dir, fmt.Sprintf("f%d.txt", w.seq))
+	defer os.Remove(file)
+	clause := cs.Opt.clause()
+	cols := cs.Cols
+	listed := cols != nil
+	if !listed {
+		for i := range cs.Tys {
+			cols = append(cols, i)
+		}
+	}
+	sig := sigOf(cs.Tys)
+	src, dst, txt := "sx_"+sig, "dx_"+sig, fmt.Sprintf("x_%d", len(cols))
+	w.ensure(src, cs.Tys)
+	w.ensure(dst, cs.Tys)
+	w.ensure(txt, allText(len(cols)))
+	for _, r := range cs.Rows {
+		lits := make([]string, len(r))
+		for i, v := range r {
+			lits[i] = litX(v)
+		}
+		w.s.MustExec(fmt.Sprintf("INSERT INTO %s VALUES (%s)", src, strings.Join(lits, ",")))
+	}
+	orig := w.s.Query("SELECT * FROM " + src)
+	if orig.Err != nil || len(orig.Rows) != len(cs.Rows) {
+		panic(fmt.Sprintf("driver: source table does not hold the generated rows: %v", orig.Err))
+	}
+	names := make([]string, len(cols))
+	for i, j := range cols {
+		names[i] = fmt.Sprintf("c%d", j)
+	}
+	sel, colList := "*", ""
+	if listed {
+		sel = strings.Join(names, ", ")
+		colList = " (" + sel + ")"
+	}
+	ignore := ""
+	if cs.Ign > 0 {
+		ignore = fmt.Sprintf(" IGNORE %d LINES", cs.Ign)
+	}
+	stmt := fmt.Sprintf("SELECT %s FROM %s INTO OUTFILE %s%s", sel, src, sqlQuote(file), clause)
+	loadStmt := fmt.Sprintf("LOAD DATA INFILE %s INTO TABLE %s%s%s%s", sqlQuote(file), dst, clause, ignore, colList)
+	cs.Statement = stmt + " ; " + loadStmt
+	out := w.s.Query(stmt)
+	if out.Err != nil {
+		cs.ObsErr = out.Err.Error()
+		id := c.CaseNoModel(cs, "")
+		c.PredChecked()
+		c.PredFail(id, "outfile-statement-failed", "INTO OUTFILE failed: "+out.Err.Error(), cs)
+		return
+	}
+	fb, err := os.ReadFile(file)
+	if err != nil {
+		panic(err)
+	}
+	cs.ObsFile = string(fb)
+	ld := w.s.Query(loadStmt)
+	var typed []sql.Row
+	typedOK := ld.Err == nil
+	if typedOK {
+		typed = w.s.Query("SELECT * FROM " + dst).Rows
+		cs.ObsTyped = eng.Rows(typed)
+	} else {
+		cs.ObsErr = ld.Err.Error()
+	}
+	lt := w.s.Query(fmt.Sprintf("LOAD DATA INFILE %s INTO TABLE %s%s%s", sqlQuote(file), txt, clause, ignore))
+	if lt.Err != nil {
+		cs.ObsErr = lt.Err.Error()
+		id := c.CaseNoModel(cs, "")
+		c.PredChecked()
+		c.PredFail(id, "load-into-text-table-failed", "LOAD DATA into an all-TEXT table failed: "+lt.Err.Error(), cs)
+		return
+	}
+	text := w.s.Query("SELECT * FROM " + txt).Rows
+	cs.ObsText = eng.Rows(text)
+
+	// Coq term
+	projRows := lib.CoqListOf(orig.Rows, func(r sql.Row) string {
+		items := make([]string, len(cols))
+		for i, j := range cols {
+			items[i] = coqX(r[j], cs.Tys[j])
+		}
+		return lib.CoqList(items)
+	})
+	typedTerm := "None"
+	if typedOK {
+		typedTerm = "(Some " + lib.CoqListOf(typed, func(r sql.Row) string {
+			items := make([]string, len(r))
+			for j, v := range r {
+				items[j] = coqX(v, cs.Tys[j])
+			}
+			return lib.CoqList(items)
+		}) + ")"
+	}
+	term := fmt.Sprintf("(RoundTripX %s %s %s %d%%nat %s %s %s %s)", coqOpts(e), lib.CoqListOf(cs.Tys, coqTyX),
+		lib.CoqListOf(cols, func(j int) string { return fmt.Sprintf("%d%%nat", j) }), cs.Ign, projRows, lib.CoqBytes(fb), typedTerm, coqRows(text))
+	key := ""
+	if len(orig.Rows) > cs.Ign {
+		key = fmt.Sprintf("rtx|%q|%s|%v|%d|%q", clause, sig, cs.Cols, cs.Ign, eng.Rows(orig.Rows))
+	}
+	id := c.Case(term, cs, key)
+	c.Count("roundtripx")
+	if listed {
+		c.Count("roundtripx_column_list")
+	}
+	if cs.Ign > 0 {
+		c.Count("roundtripx_ignore_lines")
+	}
+	for _, t := range cs.Tys {
+		c.Count("coltype:" + t)
+	}
+
+	// predicate: the reloaded table holds the exported rows after the ignored ones, listed columns filled, others NULL
+	c.PredChecked()
+	var want []sql.Row
+	for i, r := range orig.Rows {
+		if i < cs.Ign {
+			continue
+		}
+		row := make(sql.Row, len(cs.Tys))
+		for _, j := range cols {
+			row[j] = r[j]
+		}
+		want = append(want, row)
+	}
+	if typedOK && strings.Join(eng.Rows(typed), ";") == strings.Join(eng.Rows(want), ";") && len(typed) == len(want) {
+		c.Count("roundtrip_identical")
+		return
+	}
+	// a BLOB value is printed with %v as a Go slice ("[97 98]") and comes back as that text
+	hasBlob := false
+	for _, r := range want {
+		for _, j := range cols {
+			if _, ok := r[j].([]byte); ok {
+				hasBlob = true
+			}
+		}
+	}
+	sg := classify(e, cs.Tys, want)
+	if hasBlob {
+		sg = "binary-written-as-go-slice"
+	}
+	what := fmt.Sprintf("%s then %s: expected rows %q, file %q, reloaded ", stmt, loadStmt, eng.Rows(want), fb)
+	if typedOK {
+		what += fmt.Sprintf("rows %q", eng.Rows(typed))
+	} else {
+		what += "fails: " + ld.Err.Error()
+	}
+	c.PredFail(id, sg, what, cs)
+}
+
+func genRoundTripX(r *lib.RNG) caseT {
+	cs := caseT{Kind: "roundtripx", Opt: genOpts(r)}
+	e := cs.Opt.eff()
+	ncols := r.Range(1, 4)
+	other := r.Chance(1, 2)
+	for i := 0; i < ncols; i++ {
+		switch {
+		case other && r.Chance(1, 2):
+			cs.Tys = append(cs.Tys, lib.Pick(r, []string{"dec", "dec", "date", "datetime", "blob"}))
+		case r.Chance(1, 3):
+			cs.Tys = append(cs.Tys, "int")
+		default:
+			cs.Tys = append(cs.Tys, "text")
+		}
+	}
+	nrows := r.Intn(5)
+	for i := 0; i < nrows; i++ {
+		row := make([]valT, ncols)
+		for j, t := range cs.Tys {
+			if r.Chance(1, 7) {
+				row[j] = valT{Null: true}
+				continue
+			}
+			switch t {
+			case "int":
+				z := int64(r.Intn(200001)) - 100000
+				row[j] = valT{Int: &z}
+			case "text":
+				s := genStr(r, e, false)
+				row[j] = valT{Str: &s}
+			case "dec":
+				z := int64(r.Intn(2000001)) - 1000000
+				if r.Chance(1, 6) {
+					z = lib.Pick(r, []int64{0, 1, -1, 99, -100, 999999999999})
+				}
+				row[j] = valT{Dec: &z}
+			case "date":
+				row[j] = valT{Date: []int{r.Range(1000, 9999), r.Range(1, 12), r.Range(1, 28)}}
+			case "datetime":
+				row[j] = valT{Date: []int{r.Range(1000, 9999), r.Range(1, 12), r.Range(1, 28), r.Intn(24), r.Intn(60), r.Intn(60)}}
+			case "blob":
+				n := r.Intn(5)
+				b := make([]byte, n)
+				for k := range b {
+					b[k] = lib.Pick(r, []byte{0, 'a', 'b', 0xff, ' ', 0x80, '1', ','})
+				}
+				s := string(b)
+				row[j] = valT{Blob: &s}
+			}
+		}
+		cs.Rows = append(cs.Rows, row)
+	}
+	if r.Chance(1, 3) {
+		// a column list: a non-empty subset of the columns in random order
+		perm := make([]int, ncols)
+		for i := range perm {
+			perm[i] = i
+		}
+		for i := ncols - 1; i > 0; i-- {
+			j := r.Intn(i + 1)
+			perm[i], perm[j] = perm[j], perm[i]
+		}
+		cs.Cols = perm[:r.Range(1, ncols)]
+	}
+	if r.Chance(1, 3) {
+		cs.Ign = r.Intn(nrows + 2)
+	}
+	return cs
 }
 
 // ---------- generators ----------
@@ -561,6 +881,7 @@ func genReadOnly(r *lib.RNG) caseT {
 // ---------- fixed corpus (every known-finding input first) ----------
 
 func sv(s string) valT  { return valT{Str: &s} }
+func ip(z int64) *int64 { return &z }
 func iv(z int64) valT   { return valT{Int: &z} }
 func nv() valT          { return valT{Null: true} }
 
@@ -575,6 +896,10 @@ func corpus() []caseT {
 		{Kind: "roundtrip", Tys: tt, Rows: [][]valT{{sv("a\nb"), sv("c")}}},                                                // newline in value
 		{Kind: "roundtrip", Opt: optT{FT: sp(","), Enc: sp("\""), Esc: sp("\"")}, Tys: tt, Rows: [][]valT{{nv(), sv("c")}}}, // enc = esc, NULL marker
 		{Kind: "roundtrip", Opt: optT{LT: sp("||")}, Tys: tt, Rows: [][]valT{{sv("a"), sv("c|")}}},                         // first byte of terminator
+		{Kind: "roundtripx", Tys: []string{"int", "date"}, Rows: [][]valT{{iv(1), {Date: []int{2024, 2, 29}}}}},                      // DATE leaves in Go's layout and still loads back
+		{Kind: "roundtripx", Tys: []string{"blob", "int"}, Rows: [][]valT{{{Blob: sp("ab")}, iv(1)}}},                                // BLOB as Go slice
+		{Kind: "roundtripx", Tys: []string{"dec", "text"}, Rows: [][]valT{{{Dec: ip(-1)}, sv("x")}, {{Dec: ip(1250)}, nv()}}},         // DECIMAL round-trips
+		{Kind: "roundtripx", Tys: []string{"int", "text", "text"}, Cols: []int{2, 0}, Ign: 1, Rows: [][]valT{{iv(1), sv("a"), sv("b")}, {iv(2), sv("c"), sv("d")}, {iv(3), sv("e"), sv("f")}}},
 		// clean ones
 		{Kind: "roundtrip", Tys: []string{"int", "text", "text"}, Rows: [][]valT{{iv(1), sv("x"), sv("y")}, {nv(), sv(""), nv()}, {iv(-5), sv("a,b"), sv("q\"r")}}},
 		{Kind: "roundtrip", Opt: optT{FT: sp(","), Enc: sp("\""), Opt: true, Esc: sp("")}, Tys: []string{"int", "text"}, Rows: [][]valT{{iv(7), sv("a,b")}, {nv(), nv()}}},
@@ -589,7 +914,7 @@ func corpus() []caseT {
 
 func main() {
 	lib.Main("C50", func(c *lib.Ctx) {
-		c.Header = "From Coq Require Import List NArith ZArith.\nImport ListNotations.\nFrom GMS Require Import Codec.Outfile Corr.C50.\nOpen Scope N_scope."
+		c.Header = "From Coq Require Import List NArith ZArith.\nImport ListNotations.\nFrom GMS Require Import Codec.Outfile Codec.C50Fmt Corr.C50.\nOpen Scope N_scope."
 		c.CaseType = "C50.case"
 		c.MismatchFn = "C50.mismatches"
 		c.SetRule("3/4 round trips: 1-4 columns (BIGINT 1/3, TEXT 2/3), 0-4 rows, 1/7 NULLs, strings of 0-5 symbols; 2/5 of the cases mix in hazard " +
@@ -618,6 +943,8 @@ func main() {
 			r := c.R.Fork()
 			if r.Chance(1, 4) {
 				w.run(c, genReadOnly(r))
+			} else if r.Chance(1, 3) {
+				w.run(c, genRoundTripX(r))
 			} else {
 				w.run(c, genRoundTrip(r))
 			}
